@@ -53,7 +53,7 @@ func TestC05(t *testing.T) {
 	for _, ctx := range []bool{false, true} {
 		for _, async := range []bool{false, true} {
 			for opt := 0; opt < 4; opt++ {
-				for pk := 0; pk <= 7; pk++ {
+				for pk := 0; pk <= 8; pk++ {
 					r := prog.Reg{Ctx: ctx, Async: async, PanicKind: pk}
 					switch opt {
 					case 1:
